@@ -41,7 +41,11 @@ def ref_auth(h, data, eof):
 
 
 def corpus_cases():
-    return corpus("C06")
+    cs = corpus("C06")
+    for c in cs:
+        if c.drv in ('authtls',):
+            c.model = False      # end-to-end drivers have no model side (oracle only)
+    return cs
 
 
 def bits_diff(a, b):
